@@ -96,6 +96,7 @@ type SymConfig struct {
 	MaxDepth   int
 	MaxPaths   int
 	Collapse   bool                            // collapse effect-free diamonds (logging)
+	CollapsePure bool                          // also collapse effect-free diamonds that only compute values (join phis become opaque)
 	NoInline   map[*ssa.Function]bool          // never inline these
 	OnlyInline map[*ssa.Function]bool          // if non-nil, inline only these
 	Start      *ssa.BasicBlock                 // region entry (nil = function entry)
@@ -206,12 +207,13 @@ type symExec struct {
 	inert map[*ssa.Function]int // 0 unknown, 1 inert, 2 not inert, 3 in progress
 	pdom  map[*ssa.Function]map[*ssa.BasicBlock]*ssa.BasicBlock
 	colla map[*ssa.BasicBlock]*collapseInfo
+	sums  map[*ssa.Function]*modSummary
 }
 
 type collapseInfo struct {
 	ok   bool
 	join *ssa.BasicBlock
-	pred *ssa.BasicBlock
+	pred *ssa.BasicBlock // nil: join phis are opaque
 }
 
 // Enumerate returns the paths of fn under cfg.
@@ -300,7 +302,7 @@ func (se *symExec) run(st *state) {
 		case *ssa.Jump:
 			se.gotoBlock(fr, fr.block.Succs[0])
 		case *ssa.If:
-			if ci := se.collapsible(fr.block); se.cfg.Collapse && ci.ok {
+			if ci := se.collapsible(fr.block); (se.cfg.Collapse || se.cfg.CollapsePure) && ci.ok {
 				fr.prev = ci.pred
 				fr.block = ci.join
 				fr.idx = 0
@@ -1130,10 +1132,102 @@ func (se *symExec) call(st *state, fr *frame, in *ssa.Call) bool {
 			}
 		}
 	case callee != nil && se.isInert(callee):
+	case callee != nil:
+		sum := se.summary(callee)
+		if sum.unknown {
+			st.havocAll()
+		} else {
+			for f := range sum.fields {
+				st.fepoch[f]++
+				for k, a := range st.memAddr {
+					if lastField(a) == f {
+						delete(st.mem, k)
+						delete(st.memAddr, k)
+					}
+				}
+			}
+			for m := range sum.maps {
+				st.mepoch[m]++
+			}
+		}
 	default:
 		st.havocAll()
 	}
 	return false
+}
+
+// modSummary: which struct fields and map types a function (transitively) may write.
+type modSummary struct {
+	fields  map[types.Object]bool
+	maps    map[string]bool
+	unknown bool
+	done    bool
+}
+
+func (se *symExec) summary(fn *ssa.Function) *modSummary {
+	if se.sums == nil {
+		se.sums = map[*ssa.Function]*modSummary{}
+	}
+	if s, ok := se.sums[fn]; ok {
+		if !s.done {
+			return &modSummary{unknown: true}
+		}
+		return s
+	}
+	s := &modSummary{fields: map[types.Object]bool{}, maps: map[string]bool{}}
+	se.sums[fn] = s
+	if fn.Blocks == nil || !se.cfg.Prog.OwnedFunc(fn) {
+		s.done = true
+		return s // external: cannot write unexported state of the analysed structs except through pointer arguments (handled at the call)
+	}
+	for _, b := range fn.Blocks {
+		for _, in := range b.Instrs {
+			switch x := in.(type) {
+			case *ssa.Store:
+				if allocRooted(x.Addr) {
+					continue
+				}
+				if f := fieldOfAddr(x.Addr); f != nil {
+					s.fields[f] = true
+				} else if _, ok := x.Addr.(*ssa.IndexAddr); ok {
+					s.unknown = true
+				} else {
+					s.unknown = true
+				}
+			case *ssa.MapUpdate:
+				s.maps[x.Map.Type().String()] = true
+			case *ssa.Send, *ssa.Select:
+			case ssa.CallInstruction:
+				cc := x.Common()
+				if bi, ok := cc.Value.(*ssa.Builtin); ok {
+					if (bi.Name() == "delete" || bi.Name() == "clear") && len(cc.Args) > 0 {
+						s.maps[cc.Args[0].Type().String()] = true
+					}
+					continue
+				}
+				if cc.IsInvoke() {
+					continue
+				}
+				callee := cc.StaticCallee()
+				if callee == nil {
+					s.unknown = true
+					continue
+				}
+				cs := se.summary(callee)
+				if cs.unknown {
+					s.unknown = true
+				}
+				for f := range cs.fields {
+					s.fields[f] = true
+				}
+				for m := range cs.maps {
+					s.maps[m] = true
+				}
+			}
+		}
+	}
+	s.done = true
+	return s
 }
 
 func lenVersion(st *state, v ssa.Value) string {
@@ -1183,6 +1277,9 @@ func (se *symExec) isInert(fn *ssa.Function) bool {
 
 func (se *symExec) computeInert(fn *ssa.Function) bool {
 	if !se.cfg.Prog.OwnedFunc(fn) || fn.Blocks == nil {
+		if fn.Signature.Recv() != nil && (fn.Name() == "String" || fn.Name() == "Error") {
+			return true
+		}
 		if fn.Pkg != nil {
 			return inertPkgs[fn.Pkg.Pkg.Path()]
 		}
@@ -1367,6 +1464,28 @@ func (se *symExec) collapsible(b *ssa.BasicBlock) *collapseInfo {
 				return ci
 			}
 		}
+	}
+	if se.cfg.CollapsePure {
+		// values computed inside may only leave through phis of the join, which become opaque
+		for x := range region {
+			for _, in := range x.Instrs {
+				if v, ok := in.(ssa.Value); ok {
+					if refs := v.Referrers(); refs != nil {
+						for _, r := range *refs {
+							if region[r.Block()] {
+								continue
+							}
+							if _, isPhi := r.(*ssa.Phi); isPhi && r.Block() == join {
+								continue
+							}
+							return ci
+						}
+					}
+				}
+			}
+		}
+		ci.ok, ci.join, ci.pred = true, join, nil
+		return ci
 	}
 	// values defined in the region must not be used outside it
 	for x := range region {
